@@ -434,3 +434,111 @@ pub fn hash_check<T: fmt::Debug + Hash>(
         }
     }
 }
+
+// ------------------------------------------------------------------------------------------
+// compile-time trait-resolution probe: probe!(Type: Trait) -> bool (inherent const beats blanket trait const)
+
+macro_rules! probe {
+    ($t:ty : $($tr:tt)+) => {{
+        struct P<T: ?Sized>(::core::marker::PhantomData<T>);
+        #[allow(dead_code)]
+        trait Fallback { const YES: bool = false; }
+        impl<T: ?Sized> Fallback for P<T> {}
+        #[allow(dead_code)]
+        impl<T: ?Sized + $($tr)+> P<T> { const YES: bool = true; }
+        <P<$t>>::YES
+    }};
+}
+pub(crate) use probe;
+
+// ------------------------------------------------------------------------------------------
+// C07: instrumented Copy type with an observable Clone
+
+thread_local! {
+    pub static OWN_CALLS: Cell<u32> = Cell::new(0);
+    pub static METHOD_CALLS: Cell<u32> = Cell::new(0);
+}
+
+/// `how`: 0 = original / bitwise copy, 1 = produced by K's own Clone::clone, 2 = produced by the custom method
+#[derive(Copy, Debug, PartialEq, Eq)]
+pub struct K {
+    pub val: u8,
+    pub how: u8,
+}
+
+#[allow(clippy::expl_impl_clone_on_copy)]
+impl Clone for K {
+    fn clone(&self) -> Self {
+        OWN_CALLS.with(|c| c.set(c.get() + 1));
+        K { val: self.val, how: 1 }
+    }
+}
+
+pub fn k(val: u8) -> K {
+    K { val, how: 0 }
+}
+
+pub fn clone_m(x: &K) -> K {
+    METHOD_CALLS.with(|c| c.set(c.get() + 1));
+    K { val: x.val, how: 2 }
+}
+
+pub fn reset_calls() {
+    OWN_CALLS.with(|c| c.set(0));
+    METHOD_CALLS.with(|c| c.set(0));
+}
+pub fn calls() -> (u32, u32) {
+    (OWN_CALLS.with(|c| c.get()), METHOD_CALLS.with(|c| c.get()))
+}
+
+/// fp(x) = (variant, [(val, how)] per field); hows(variant) = modelled `how` per field after a clone;
+/// n = number of values, mk(i) builds the i-th value afresh (fields with how = 0)
+pub fn clone_check<T>(
+    r: &mut Rep,
+    n: usize,
+    mk: &dyn Fn(usize) -> T,
+    fp: &dyn Fn(&T) -> (usize, Vec<(u8, u8)>),
+    hows: &dyn Fn(usize) -> Vec<u8>,
+    clone: &dyn Fn(&T) -> T,
+    clone_from: &dyn Fn(&mut T, &T),
+) {
+    let expect = |src: &(usize, Vec<(u8, u8)>)| -> ((usize, Vec<(u8, u8)>), (u32, u32)) {
+        let h = hows(src.0);
+        let f: Vec<(u8, u8)> = src.1.iter().zip(h.iter()).map(|((v, _), h)| (*v, *h)).collect();
+        let own = h.iter().filter(|x| **x == 1).count() as u32;
+        let met = h.iter().filter(|x| **x == 2).count() as u32;
+        ((src.0, f), (own, met))
+    };
+    for i in 0..n {
+        let x = mk(i);
+        let src = fp(&x);
+        let (want, want_calls) = expect(&src);
+        reset_calls();
+        match guarded(|| clone(&x)) {
+            Ok(y) => {
+                let got_calls = calls();
+                let got = fp(&y);
+                r.ck(got == want, 0, &|| format!("clone of {:?} gave {:?}, model {:?}", src, got, want));
+                r.ck(got_calls == want_calls, 1, &|| format!("clone of {:?} applied (own Clone, method) {:?} times, model {:?}", src, got_calls, want_calls));
+                r.ck(fp(&x) == src, 2, &|| format!("clone changed its source {:?}", src));
+            }
+            Err(p) => r.ck(false, 99, &|| format!("clone of {:?} panicked: {}", src, p)),
+        }
+        for j in 0..n {
+            let mut a = mk(j);
+            let before = fp(&a);
+            reset_calls();
+            match guarded(|| clone_from(&mut a, &x)) {
+                Ok(()) => {
+                    let got_calls = calls();
+                    let got = fp(&a);
+                    r.ck(got == want, 3 + (before.0 == src.0) as u64,
+                         &|| format!("after a.clone_from(&b) with a = {:?}, b = {:?}: a = {:?}, but b.clone() is modelled as {:?}", before, src, got, want));
+                    r.ck(got_calls == want_calls, 5, &|| format!("a.clone_from(&b) with a = {:?}, b = {:?} applied (own Clone, method) {:?} times, model {:?}", before, src, got_calls, want_calls));
+                    r.ck(fp(&x) == src, 6, &|| format!("clone_from changed its source {:?}", src));
+                }
+                Err(p) => r.ck(false, 98, &|| format!("clone_from({:?}, {:?}) panicked: {}", before, src, p)),
+            }
+        }
+    }
+}
